@@ -131,7 +131,7 @@ class _C13:
 SIMPLE = {
     "C01": (_C01, "exploration", ["g++ 12 / libstdc++ 12, -std=gnu++17 -O1 with ASan+UBSan, assertions enabled (no NDEBUG); converting inputs: g++ -std=c++17 (quick), plus g++ C++20 and clang++ C++14/C++20 (thorough)",
                                   "the reference model (std::vector<int>) and the instrumented element / allocator / iterator types are correct (every alarm on the unchanged tree was adjudicated by hand, DESIGN.md §10, and the checks were exercised against independently written seeded changes, §9)",
-                                  "inputs whose value type differs from the element type are compared with the same call on std::vector<To> (68 type pairs, DESIGN.md §4 C13); bool sources are not generated",
+                                  "inputs whose value type differs from the element type are compared with the same call on std::vector<To> (72 type pairs, DESIGN.md §4 C13); bool sources are not generated",
                                   "held on the generated cases only: this is search, not proof"]),
     "C20": (gdbpp, "exploration", ["gdb 13.1 with its Python API; g++ 12 -O0 -g and clang++ 14 -O0 -g -fstandalone-debug",
                                    "Visual Studio cannot be run here: for natvis only the resolution of its member paths to fields carrying the right values is checked (through gdb), not rendering; `inline_capacity_v` is only resolvable in the clang build (g++ omits unused static members from the debug info) and `m_alloc` only where the allocator is stored as a member",
